@@ -330,8 +330,10 @@ func bigFromRawOps() []*opSpec {
 		ops = append(ops, &opSpec{name: fmt.Sprintf("NewBigDecFromBigIntWithPrec(%d)", p), grp: "NewBigDecFromBigIntWithPrec",
 			mutName: fmt.Sprintf("NewBigDecFromBigIntMutWithPrec(%d)", p), mutGrp: "NewBigDecFromBigIntMutWithPrec", ak: kRaw, dom: dBig, mode: mExact,
 			call: func(a, _ *operand) *big.Int { return osmomath.NewBigDecFromBigIntWithPrec(a.p, int64(p)).BigIntMut() },
-			mut:  func(a, _ *operand) *big.Int { return osmomath.NewBigDecFromBigIntMutWithPrec(a.p, int64(p)).BigIntMut() },
-			ref:  func(a, _ *big.Int) (*big.Int, bool) { return okv(mulr(a, pow10(36-p))) }},
+			mut: func(a, _ *operand) *big.Int {
+				return osmomath.NewBigDecFromBigIntMutWithPrec(a.p, int64(p)).BigIntMut()
+			},
+			ref: func(a, _ *big.Int) (*big.Int, bool) { return okv(mulr(a, pow10(36-p))) }},
 			&opSpec{name: fmt.Sprintf("NewBigDecFromIntWithPrec(%d)", p), grp: "NewBigDecFromIntWithPrec", ak: kBigInt, dom: dBig, mode: mExact,
 				call: func(a, _ *operand) *big.Int { return osmomath.NewBigDecFromIntWithPrec(a.bi, int64(p)).BigIntMut() },
 				ref:  func(a, _ *big.Int) (*big.Int, bool) { return okv(mulr(a, pow10(36-p))) }})
